@@ -28,6 +28,7 @@ CONFIGS = {
     "asan-dbg":  ("Debug",   "-O1 -DBEE2_VERIF " + SAN, []),          # ASSERT()s active
     "rel":       ("Release", "-DBEE2_VERIF", []),
     "rel-plain": ("Release", "", []),                                   # guard off
+    "asan-plain-dbg": ("Debug", "-O1 " + SAN, []),                      # guard off, ASan + ASSERT()s (page-rounded blobs)
     "fast":      ("Release", "-g -DBEE2_VERIF " + SAN, ["-DBUILD_FAST=ON"]),
     "w32":       ("Release", "-g -DBEE2_VERIF -U__SIZEOF_INT128__ " + SAN, []),
     "w32-dbg":   ("Debug",   "-O1 -DBEE2_VERIF -U__SIZEOF_INT128__ " + SAN, []),
